@@ -16,7 +16,8 @@ ALPHABET = [
     lambda r: f'remove {hx(r.choice(["/d/g", "/f", "/d/s"]))}',
     lambda r: f'remove_all {hx(r.choice(["/d", "/d/s"]))}',
     lambda r: f'move_p {hx(r.choice(["/f", "/d/g", "/d/s"]))} {hx(r.choice(["/n", "/d", "/z"]))}',
-    lambda r: f'copy {hx(r.choice(["/f", "/d"]))} {hx(r.choice(["/c", "/d/s"]))}',
+    # (a directory copied into its own subtree - /d into /d/s - is order-dependent even sequentially: not generated)
+    lambda r: (lambda s_: f'copy {hx(s_)} {hx(r.choice(["/c", "/d/s"]) if s_ == "/f" else "/c")}')(r.choice(["/f", "/d"])),
     lambda r: f'symlink {hx(r.choice(["/l", "/d/l"]))} {hx(r.choice(["/f", "/d"]))}',
     lambda r: f'set_cwd {hx(r.choice(["/d", "/d/s", "/"]))}',
     lambda r: f'read_all {hx(r.choice(["/f", "/n", "g"]))}',
